@@ -71,6 +71,29 @@ def parseOp (s : String) : Option Op :=
 def parseTxs (s : String) : Option (List (List Op)) :=
   (s.splitOn "|").mapM fun t => (t.splitOn ",").mapM parseOp
 
+/-- how a schema variant turns a case's value of `alias` / `code` / `colour` / `label` into the raw stored
+    bytes: the identity for string symbols; for the typed variant the fixed-width little-endian form
+    (the harness hands `SetInt64` / `SetInt32` / `SetFloat64` the number with these little-endian digits) -/
+structure Enc where
+  alias : Bytes → Bytes := id
+  code : Bytes → Bytes := id
+  colour : Bytes → Bytes := id
+  label : Bytes → Bytes := id
+
+def Enc.typedV : Enc := ⟨padTo 8, padTo 4, padTo 8, padTo 4⟩
+
+def encVals (en : Enc) (v : ValsA) : ValsA := { v with alias := v.alias.map en.alias }
+
+def encOp (en : Enc) : Op → Op
+  | .createA id v => .createA id (encVals en v)
+  | .updateA id v chk => .updateA id (encVals en v) chk
+  | .createA1 id v code pals => .createA1 id (encVals en v) (en.code code) pals
+  | .createA2 id v colour => .createA2 id (encVals en v) (en.colour colour)
+  | .updateA2 id v colour chk cc => .updateA2 id (encVals en v) (en.colour colour) chk cc
+  | .createB id l => .createB id (l.map en.label)
+  | .updateB id l chk => .updateB id (l.map en.label) chk
+  | op => op
+
 def errName : Err → String
   | .dup => "dup" | .nullNotAllowed => "null" | .notFound => "notfound"
   | .exists => "exists" | .refExists => "refexists" | .other => "other" | .panic => "panic"
@@ -90,11 +113,11 @@ def optIdW : Option Bytes → String
   | none => "~"
   | some b => hexB b
 
-def readsW (vals : List Bytes) (s : State) : String :=
+def readsW (en : Enc) (vals : List Bytes) (s : State) : String :=
   let per := vals.map fun v =>
-    "n:" ++ hexB v ++ "=" ++ optIdW (s.uName.lookup v) ++ ";a:" ++ hexB v ++ "=" ++ optIdW (s.uAlias.lookup v) ++
-    ";c:" ++ hexB v ++ "=" ++ optIdW (s.uCode.lookup v) ++ ";l:" ++ hexB v ++ "=" ++ optIdW (s.uLabel.lookup v) ++
-    ";x:" ++ hexB v ++ "=" ++ optIdW (s.uColour.lookup v) ++ ";r:" ++ hexB v ++ "=" ++ listW (setOf ((s.sRoles.lookup v).getD [])) ++ ";"
+    "n:" ++ hexB v ++ "=" ++ optIdW (s.uName.lookup v) ++ ";a:" ++ hexB v ++ "=" ++ optIdW (s.uAlias.lookup (en.alias v)) ++
+    ";c:" ++ hexB v ++ "=" ++ optIdW (s.uCode.lookup (en.code v)) ++ ";l:" ++ hexB v ++ "=" ++ optIdW (s.uLabel.lookup (en.label v)) ++
+    ";x:" ++ hexB v ++ "=" ++ optIdW (s.uColour.lookup (en.colour v)) ++ ";r:" ++ hexB v ++ "=" ++ listW (setOf ((s.sRoles.lookup v).getD [])) ++ ";"
   String.join per ++ "k=" ++ listW (setOf (Map.keys s.sRoles))
 
 def resW (s : State) (ops : List Op) : String :=
@@ -134,7 +157,7 @@ def deletedW (nm : Names) (spec : Bool) (s s' : State) : String :=
         (if noClashCheck nm j s' then "" else "!noclash")
     ",".intercalate (sortStrings parts)
 
-def runModel (nm : Names) (spec : Bool) (vals : List Bytes) (txs : List (List Op)) : String :=
+def runModel (nm : Names) (en : Enc) (spec : Bool) (vals : List Bytes) (txs : List (List Op)) : String :=
   let rec go (s : State) (prev : String) (txs : List (List Op)) (acc : List String) : List String :=
     match txs with
     | [] => acc.reverse
@@ -148,15 +171,19 @@ def runModel (nm : Names) (spec : Bool) (vals : List Bytes) (txs : List (List Op
       else
         let dump := dumpW (Render nm s')
         let shown := if dump == prev then "=" else dump
-        go s' dump rest ((resW s ops ++ "#" ++ shown ++ "#" ++ readsW vals s' ++ "#" ++ del) :: acc)
+        go s' dump rest ((resW s ops ++ "#" ++ shown ++ "#" ++ readsW en vals s' ++ "#" ++ del) :: acc)
   "|".intercalate (go State.empty "" txs [])
 
 def stepWith (spec : Bool) (line : String) : String :=
   match splitSp line with
   | [h, vals, txs] =>
     -- `h`: the plain naming of the schema, `h1`: the variant with symbol ≠ key ≠ checker name
-    match (if h = "h" then some Names.std else if h = "h1" then some Names.alt else none), parseList vals, parseTxs txs with
-    | some nm, some vs, some ts => runModel nm spec vs ts
+    -- `h2`: the typed variant (unique indexes over int64 / int32 / float64 symbols)
+    let variant : Option (Names × Enc) :=
+      if h = "h" then some (Names.std, {}) else if h = "h1" then some (Names.alt, {})
+      else if h = "h2" then some (Names.typedV, Enc.typedV) else none
+    match variant, parseList vals, parseTxs txs with
+    | some (nm, en), some vs, some ts => runModel nm en spec vs (ts.map (·.map (encOp en)))
     | _, _, _ => "bad-case"
   | _ => "bad-case"
 
